@@ -65,6 +65,9 @@ func with(base map[string]string, kv ...string) map[string]string {
 
 // design runs the PrintConc configurations and returns the race classes the
 // model predicts as implemented and with the repair (WriteOnlyIfChanged).
+// gcacheClasses: classes predicted when the cached types of globals are nil or stale at print time.
+var gcacheClasses map[string]bool
+
 func design(rep *mbt.Report, tier string) (asImpl, repaired map[string]bool) {
 	two := mix("{1, 2}", "{}", "{}")
 	mixed := mix("{1}", "{2}", "{3}")
@@ -84,6 +87,14 @@ func design(rep *mbt.Report, tier string) (asImpl, repaired map[string]bool) {
 		{label: "repaired, 2 module printers, fresh", cfg: "PrintConc.cfg", consts: with(two, "StartPrinted", "FALSE")},
 		{label: "repaired, module+func+block, printed", cfg: "PrintConc.cfg", consts: mixed},
 		{label: "repaired classes, module+func+block, fresh (residual)", cfg: "PrintConcLog.cfg", consts: with(mixed, "StartPrinted", "FALSE"), collect: true},
+		// lazily cached pointer types of globals/functions nil or stale at print time (struct literal with
+		// Typ nil, which the documentation allows, or a Type() that re-derives a stale cache): operand
+		// printing writes them without any mutex, so even module printers race on a first print
+		{label: "unfilled global caches, 2 module printers, fresh", cfg: "PrintConc.cfg", consts: with(two, "StartPrinted", "FALSE", "GCachePrefilled", "FALSE"), expect: []string{"NoRace"}},
+		{label: "unfilled global caches classes, 2 module printers, fresh", cfg: "PrintConcLog.cfg", consts: with(two, "StartPrinted", "FALSE", "GCachePrefilled", "FALSE"), collect: true},
+		{label: "repaired, unfilled global caches, already printed", cfg: "PrintConc.cfg", consts: with(two, "GCachePrefilled", "FALSE")},
+		// repair candidate: AssignGlobalIDs computes the types while it holds Module.mu
+		{label: "repaired, unfilled global caches filled under Module.mu, fresh", cfg: "PrintConc.cfg", consts: with(two, "StartPrinted", "FALSE", "GCachePrefilled", "FALSE", "FillGlobalCachesUnderLock", "TRUE")},
 		// no deadlock between the two mutexes: every printer terminates
 		{label: "repaired, termination", cfg: "PrintConcLive.cfg", consts: with(two, "StartPrinted", "FALSE")},
 		// sensitivity: with a Lock removed the model must fail
@@ -113,6 +124,7 @@ func design(rep *mbt.Report, tier string) (asImpl, repaired map[string]bool) {
 	}
 	wg.Wait()
 	asImpl, repaired = map[string]bool{}, map[string]bool{}
+	gcacheClasses = map[string]bool{}
 	var results []map[string]interface{}
 	for _, j := range jobs {
 		t := j.res
@@ -142,6 +154,8 @@ func design(rep *mbt.Report, tier string) (asImpl, repaired map[string]bool) {
 					asImpl[k] = true
 				} else if strings.HasPrefix(j.label, "repaired") {
 					repaired[k] = true
+				} else if strings.HasPrefix(j.label, "unfilled") {
+					gcacheClasses[k] = true
 				}
 			}
 			if strings.HasPrefix(j.label, "sensitivity") && !strings.Contains(t.Output, `"typ"`) {
@@ -153,6 +167,10 @@ func design(rep *mbt.Report, tier string) (asImpl, repaired map[string]bool) {
 	rep.Extra["tlc_runs"] = results
 	rep.Extra["model_race_classes_as_implemented"] = keys(asImpl)
 	rep.Extra["model_race_classes_repaired_residual"] = keys(repaired)
+	rep.Extra["model_race_classes_unfilled_global_caches"] = keys(gcacheClasses)
+	if len(gcacheClasses) == 0 {
+		mbt.Infra("PrintConc: the model with unfilled global caches predicts no race class")
+	}
 	if len(asImpl) == 0 {
 		mbt.Infra("PrintConc: the as-implemented model predicts no race class")
 	}
@@ -537,12 +555,14 @@ func Run(tier, replay string) {
 			note := ""
 			if asImpl == nil {
 				note = ""
+			} else if gcacheClasses[k] {
+				note = " [predicted by the model when the cached type of a global is nil or stale at print time: operand printing writes it while holding no mutex; computing the types in AssignGlobalIDs under Module.mu cures it in the model]"
 			} else if !asImpl[k] {
-				note = " [a class the as-implemented model does not predict]"
+				note = " [a class the model does not predict]"
 			} else if residual[k] && !numberedStart(sc) {
 				note = " [remains in the model with write-only-if-changed: reader that does not take the lock, next to a first print]"
 			} else {
-				note = " [cured in the model by write-only-if-changed]"
+				note = " [class of the write-always defect repaired by 4b95b3d (write only if changed): regression]"
 			}
 			rep.Fail(mbt.Failure{
 				Signature: "C13|race|" + k + "|" + idsLabel(sc),
